@@ -66,7 +66,7 @@ def build_server_stream(case: dict, first_write: bytes):
     name = case.get("server_name")
     parts = [wire.enc_noise_outer(noise_ref.server_hello(None if name is None else name.encode()))]
     parts.append(wire.enc_noise_outer(answer))
-    msgs = [(m[0], gen.payload_bytes(m[1])) for m in case.get("msgs", [])]
+    msgs = [(m[0], gen.payload_bytes(m[1])) for m in case.get("msgs", [])] * int(case.get("repeat", 1))
     for t, p in msgs:
         parts.append(wire.enc_noise_outer(r.encrypt_next(t, p)))
     ends = []
@@ -80,10 +80,20 @@ def build_server_stream(case: dict, first_write: bytes):
 def run_case(case: dict) -> CaseResult:
     if case.get("mode") == "api":
         return run_api(case)
+    gaps = case.get("gaps")  # seconds of virtual time after chunk i (None: no loop turn at all)
+    sim = fstub.sim_loop() if gaps else None
+    try:
+        return _run(case, gaps, sim)
+    finally:
+        if sim is not None:
+            sim.dispose()
+
+
+def _run(case: dict, gaps, sim) -> CaseResult:
     res = CaseResult()
     key = bytes.fromhex(case["key"])
     expected = case.get("expected")
-    h, conn, tr = fstub.make_noise(key_text(key, int(case.get("key_fmt", 0))), expected, eph=int(case.get("eph", 0)))
+    h, conn, tr = fstub.make_noise(key_text(key, int(case.get("key_fmt", 0))), expected, eph=int(case.get("eph", 0)), sim=sim)
     if len(tr.writes) != 1:
         res.violations.append(Violation(ID, "c03:client-hello-not-one-write", f"{len(tr.writes)} writes in connection_made"))
         return res
@@ -148,6 +158,14 @@ def run_case(case: dict) -> CaseResult:
                     break
             if conn.packets:
                 res.violations.append(Violation(ID, "c03:name:delivery-despite-mismatch", str(len(conn.packets))))
+                break
+        if gaps and ok_name:
+            g = float(gaps[i % len(gaps)])
+            n_before = len(conn.packets)
+            fstub.advance(sim, g)
+            classes.add("time_between_chunks")
+            if len(conn.packets) != n_before or conn.errors or tr.closed:
+                res.violations.append(Violation(ID, "c03:changed-while-waiting-for-more-bytes", f"after chunk {i} ({fed}/{total} bytes) and {g}s without new data: deliveries {n_before}->{len(conn.packets)}, errors={conn.errors!r} closed={tr.closed}"))
                 break
         # classes
         if before < hs_end <= fed and any(e <= fed for e in data_ends):
@@ -327,6 +345,7 @@ def _case(draw, tier):
         "kinds": draw(gen.chunk_kinds()),
         "hs_payload": hsp,
         "key_fmt": draw(st.sampled_from([0, 0, 0, 0, 1, 2, 3, 4, 5])),
+        **({"gaps": draw(st.lists(st.sampled_from([0, 0.01, 1, 9.5, 29, 31, 100]), min_size=1, max_size=3))} if draw(st.integers(0, 9)) == 6 else {}),
     }
 
 
@@ -350,6 +369,14 @@ def enumerated(tier):
         yield {"key": key, "eph": 2, "server_name": "dev", "expected": "dev", "msgs": msgs, "cuts": [c], "kinds": [c % 4, (c + 1) % 4]}
         if c % 3 == 0:
             yield {"key": key, "eph": 2, "server_name": "dev", "expected": None, "msgs": msgs, "cuts": [c, min(total, c + 5)], "kinds": [0, 1, 2]}
+    # bursts of many complete frames in one chunk; chunks that always end inside a frame while time passes
+    small = [[7, {"h": ""}], [26, {"h": "0d01000000"}]]
+    for n in (32, 33, 64, 65, 129, 400):
+        yield {"key": key, "eph": 4, "server_name": "dev", "expected": None, "msgs": small, "repeat": n, "cuts": [], "kinds": [0]}
+        yield {"key": key, "eph": 4, "server_name": "dev", "expected": None, "msgs": small, "repeat": n, "cuts": [8 + 52 + 23 * n + 7], "kinds": [1, 0]}
+    mids = [8 + 52 + 30 + k * (23 + 23 + 5) for k in range(1, 12)]
+    for g in ([1], [29, 2], [31], [100], [0.01, 600]):
+        yield {"key": key, "eph": 4, "server_name": "dev", "expected": None, "msgs": small, "repeat": 12, "cuts": mids, "kinds": [0, 1], "gaps": g}
     for hsp in (1, 2, 16, 48, 100):
         for fmt in range(6):
             tot = 8 + 52 + hsp + sum(23 + len(gen.payload_bytes(s)) for _t, s in msgs)
